@@ -47,6 +47,7 @@ type Frame struct {
 	env    map[ssa.Value]Value
 	defers []func()
 	visits map[*ssa.BasicBlock]int
+	lastFork map[*ssa.BasicBlock]int
 	result Value
 }
 
@@ -84,6 +85,7 @@ type Exec struct {
 	tags       []tagCond
 	pcSet      map[string]bool
 	modelCtx   *bctx
+	forkCount  int
 	memo       map[string]*Term
 	upgrade    bool
 	cuts       map[string][]*Term
@@ -660,6 +662,7 @@ func (e *Exec) fork(conds []*Term) int {
 	if e.decIdx < len(e.prefix) {
 		ch := e.prefix[e.decIdx]
 		e.decIdx++
+		e.forkCount++
 		e.decs = append(e.decs, ch)
 		if ch >= len(conds) {
 			e.stop("unsupported", "replay decision out of range")
@@ -692,6 +695,7 @@ func (e *Exec) fork(conds []*Term) int {
 	}
 	ch := feas[0]
 	e.decIdx++
+	e.forkCount++
 	e.decs = append(e.decs, ch)
 	e.assume(conds[ch])
 	return ch
@@ -1009,7 +1013,7 @@ func (e *Exec) callFunction(fn *ssa.Function, args []Value) Value {
 		e.stop("unsupported", "call depth exceeded at %s", fn.String())
 	}
 	e.res.Funcs[fn.String()]++
-	fr := &Frame{fn: fn, env: make(map[ssa.Value]Value, 32), visits: map[*ssa.BasicBlock]int{}}
+	fr := &Frame{fn: fn, env: make(map[ssa.Value]Value, 32), visits: map[*ssa.BasicBlock]int{}, lastFork: map[*ssa.BasicBlock]int{}}
 	for i, p := range fn.Params {
 		fr.env[p] = args[i]
 	}
@@ -1026,7 +1030,10 @@ func (e *Exec) runFrame(fr *Frame) {
 	blk := fr.fn.Blocks[0]
 	var prev *ssa.BasicBlock
 	for {
-		fr.visits[blk]++
+		if last, seen := fr.lastFork[blk]; !seen || last != e.forkCount {
+			fr.visits[blk]++ // only iterations separated by a symbolic decision count against the bound
+		}
+		fr.lastFork[blk] = e.forkCount
 		if fr.visits[blk] > e.h.Unwind+1 {
 			e.stop("unwind", "loop bound %d exceeded in %s at %s", e.h.Unwind, fr.fn.String(), e.where())
 		}
@@ -1237,7 +1244,7 @@ func (e *Exec) step(fr *Frame, ins ssa.Instruction) {
 	case *ssa.Next:
 		fr.env[i] = e.next(e.eval(fr, i.Iter).(*IterVal), i.IsString, i)
 	case *ssa.Select:
-		e.unsupported("select")
+		fr.env[i] = e.doSelect(fr, i)
 	case *ssa.Send:
 		e.unsupported("channel send")
 	case *ssa.Slice:
@@ -1989,7 +1996,7 @@ func (e *Exec) callValue(f *FuncVal, args []Value, c *ssa.CallCommon) Value {
 				return h(e, ov, args)
 			}
 		}
-		fn := e.w.prog.LookupMethod(iv.typ, f.method.Pkg(), f.method.Name())
+		fn := e.w.findMethod(iv.typ, f.method.Name())
 		if fn == nil {
 			e.unsupported("method %s not found on %v", f.method.Name(), iv.typ)
 		}
@@ -2016,7 +2023,7 @@ func (e *Exec) callClosure(f *FuncVal, args []Value) Value {
 		e.stop("unsupported", "call depth exceeded")
 	}
 	e.res.Funcs[fn.String()]++
-	fr := &Frame{fn: fn, env: make(map[ssa.Value]Value, 32), visits: map[*ssa.BasicBlock]int{}}
+	fr := &Frame{fn: fn, env: make(map[ssa.Value]Value, 32), visits: map[*ssa.BasicBlock]int{}, lastFork: map[*ssa.BasicBlock]int{}}
 	for i, p := range fn.Params {
 		fr.env[p] = args[i]
 	}
@@ -2065,6 +2072,8 @@ func (e *Exec) callBuiltin(name string, args []Value, c *ssa.CallCommon) Value {
 		return r
 	case "recover":
 		return nilIface
+	case "verif:noop":
+		return nil
 	case "ssa:wrapnilchk":
 		p := args[0]
 		if pp, ok := p.(*Pointer); ok && isNilPtr(pp) {
